@@ -14,15 +14,19 @@ CFG = dict(
         "CBK step constants g, h < 8 (the code computes them mod 8); keys whose schedule panics in the real code are the recorded finding",
         "Device IDs of generated packets have a non-zero first byte (device.ID.Read rejects others: the packet codec's domain, C01)",
     ],
-    level_text="Seventeen theorems over the Gallina models of cfg.MultiWrapper (stack order), hex, base64, the B64 shift transform, CFB over ANY block "
+    level_text="Twenty theorems over the Gallina models of cfg.MultiWrapper (stack order), hex, base64, the B64 shift transform, CFB over ANY block "
                "function (XOR, AES), the CBK cipher (substitution table, nibble mix incl. overlapping pairs - all 56 (g,h) with universally quantified bytes -, "
                "pair swap, shuffle, size+1 framing with count byte, block counter, the writer's buffering) and the DNS framing (labels, 12-byte header, "
                "segments of <= 256 in packets of <= 2048, both roles): every element, every stack (induction on the list), every transform and the full "
-               "writePacket/readPacket path are the identity for ALL payloads, keys, shifts, domains, random draws and - for CBK - all sequences of Write calls. "
-               "zlib, gzip, the AES block and the packet codec enter as hypotheses in the statements. The models are tied to /repo on every run: ~3700 cases "
+               "writePacket/readPacket path are the identity for ALL payloads, keys, shifts, domains, random draws and - for CBK - all sequences of Write calls; "
+               "the buffer pool shared by writePacket/readPacket is modelled as state: after ANY history of sends and of receives of arbitrary (cut, damaged, empty) "
+               "input every pooled buffer is empty, hence every later packet still round-trips (the uncleared-Put variant is refuted). "
+               "zlib, gzip, the AES block and the packet codec enter as hypotheses in the statements. The models are tied to /repo on every run: ~3850 cases "
                "(stacks of depth 0..4, 7 element kinds, 4 transform kinds, lengths around block sizes and the DNS 256/2048 limits up to 64 KiB, write/reader/consumer "
                "chunkings whole/1/7/block-1/block/block+1/random with zero-length writes) run through the real code with exact-equality oracle; the wire bytes of "
-               "every stack/transform made of modelled elements, the CBK block functions and the CBK writer (same Write sequence) are recomputed by the model inside Coq.",
+               "every stack/transform made of modelled elements, the CBK block functions and the CBK writer (same Write sequence) are recomputed by the model inside Coq; "
+               "86 histories (good round trips mixed with faulty receives: DNS streams cut after complete records, wrong record length, garbage, broken zlib/hex, nothing) "
+               "run on the real path with pool probes, against the pool model.",
     level_note="Proof is about the model; the tie to the code is differential (its strength is that of the generator, distribution in the evidence). "
                "Chunking independence is proved for CBK's own buffering only; for the stdlib stream adapters (hex, base64, cipher.StreamWriter/Reader, zlib, gzip) "
                "it is sampled. One defect repaired (DNS labels, commit facc2eb), one recorded as known finding (CBK key schedule divide by zero). No axioms.",
